@@ -105,6 +105,30 @@ pub fn install_quiet_panic_hook() {
     }));
 }
 
+/// Hook for the libFuzzer targets: libfuzzer-sys aborts on *every* panic, also on the ones the
+/// checks provoke on purpose inside `catch` (documented rejections). This hook keeps those quiet
+/// and aborts (= libFuzzer crash) only for a panic outside `catch`, i.e. a reported violation.
+pub fn install_fuzz_panic_hook() {
+    std::panic::set_hook(Box::new(|info| {
+        let msg = if let Some(s) = info.payload().downcast_ref::<&str>() {
+            s.to_string()
+        } else if let Some(s) = info.payload().downcast_ref::<String>() {
+            s.clone()
+        } else {
+            "<non-string panic payload>".to_string()
+        };
+        let loc = info
+            .location()
+            .map(|l| format!("{}:{}", l.file(), l.line()))
+            .unwrap_or_default();
+        if CATCHING.with(|c| c.get()) == 0 {
+            eprintln!("panic outside a checked call: {msg} @ {loc}");
+            std::process::abort();
+        }
+        LAST_PANIC.with(|p| *p.borrow_mut() = Some(format!("{msg} @ {loc}")));
+    }));
+}
+
 pub fn take_last_panic() -> Option<String> {
     LAST_PANIC.with(|p| p.borrow_mut().take())
 }
